@@ -440,7 +440,7 @@ func judge(o *simOutcome, syncFree bool) (vs []verdict, harness string) {
 
 // ---------------------------------------------------------------- generation
 
-var opKinds = []string{"qr", "dm", "ean13", "ean8", "upca", "upce", "code39", "code93", "code128", "itf", "codabar", "qrmulti", "aztec", "rs", "bin", "eci", "eanext", "qrdmg", "dmdmg", "aztecgen"}
+var opKinds = []string{"qr", "dm", "ean13", "ean8", "upca", "upce", "code39", "code93", "code128", "itf", "codabar", "qrmulti", "aztec", "rs", "bin", "eci", "eanext", "qrdmg", "dmdmg", "aztecgen", "qreci"}
 
 func gen18(c *kit.Ctx, numSites int, syncFree bool) *Trace18 {
 	r := c.RNG
@@ -465,6 +465,7 @@ func gen18(c *kit.Ctx, numSites int, syncFree bool) *Trace18 {
 	}
 	same := r.Chance(1, 3) // all tasks perform the same kind: maximises contention on one package
 	sameKind := opKinds[r.Intn(len(opKinds))]
+	sameP := r.Intn(26)
 	maxOps := 6
 	if k > 16 {
 		maxOps = 2
@@ -480,6 +481,12 @@ func gen18(c *kit.Ctx, numSites int, syncFree bool) *Trace18 {
 			p := r.Intn(6)
 			if (kind == "qr" || kind == "dm") && r.Chance(3, 4) {
 				p = r.Intn(3) // mostly small symbols
+			}
+			if kind == "qreci" {
+				p = r.Intn(26)
+			}
+			if same && r.Chance(2, 3) {
+				p = sameP // same selector (character set, field, image) in every task: maximal contention on one shared object
 			}
 			script = append(script, OpSpec{K: kind, S: r.Uint64() >> 11, P: p})
 		}
